@@ -638,6 +638,7 @@ func (a *Analysis) ruleW2(upd *ssa.Function) {
 		}
 	}
 	// ---- output file (possibly behind a bufio.Writer, which must then be flushed)
+	var writeFileSite ssa.Instruction // render-into-memory form: the os.WriteFile call
 	w := execRec.Args[1]
 	var bw *ResV
 	if rv, ok := w.(ResV); ok && rv.Kind == "bufio.Writer" {
@@ -684,8 +685,40 @@ func (a *Analysis) ruleW2(upd *ssa.Function) {
 				r.OK("W2", fk+"/output-name", fp, "", "writes %s", s)
 			}
 		}
+	} else if buf, isBuf := w.(ResV); isBuf && buf.Kind == "bytes.Buffer" && bw == nil {
+		// rendered into memory first: exactly one os.WriteFile must write that rendering (and
+		// nothing else) to the output path; WriteFile creates or truncates
+		var wf []CallRec
+		for _, c := range e.Calls {
+			if c.Callee == "os.WriteFile" || c.Callee == "io/ioutil.WriteFile" {
+				wf = append(wf, c)
+			}
+		}
+		switch {
+		case len(wf) != 1:
+			r.Add("W2", fk+"/output", ep, "", Undecided, "the template is rendered into a bytes.Buffer; expected exactly one os.WriteFile of it, found %d", len(wf))
+		default:
+			fp := a.P.InstrPos(wf[0].Instr)
+			rv, isR := wf[0].Args[1].(RenderedV)
+			if !isR || rv.Buf != buf.O || rv.Exec != execRec.Instr {
+				r.Bad("W2", fk+"/output", fp, "", "os.WriteFile writes %v, which is not the content of the buffer right after the one Execute into it", wf[0].Args[1])
+				break
+			}
+			writeFileSite = wf[0].Instr
+			r.OK("W2", fk+"/truncate", fp, "", "os.WriteFile creates or truncates the output")
+			s, ok := renderPath(wf[0].Args[0])
+			want := a.genOutDir() + "/{" + pathP.Name() + "}.go"
+			if !ok || s != want {
+				if !ok {
+					s = fmt.Sprint(wf[0].Args[0])
+				}
+				r.Bad("W2", fk+"/output-name", fp, "", "output path is %q; expected %q (same stem as the download)", s, want)
+			} else {
+				r.OK("W2", fk+"/output-name", fp, "", "writes %s", s)
+			}
+		}
 	} else {
-		r.Add("W2", fk+"/output", ep, "", Undecided, "the Execute target (%v) is not a file opened by os.OpenFile/os.Create (directly or behind a bufio.Writer)", execRec.Args[1])
+		r.Add("W2", fk+"/output", ep, "", Undecided, "the Execute target (%v) is not a file opened by os.OpenFile/os.Create (directly or behind a bufio.Writer) nor a local bytes.Buffer written out by os.WriteFile", execRec.Args[1])
 	}
 	// nothing else is done with the output
 	for _, c := range e.Calls {
@@ -749,6 +782,7 @@ func (a *Analysis) ruleW2(upd *ssa.Function) {
 			}
 		}
 		rendered := false
+		written := writeFileSite == nil
 		for _, site := range sites {
 			c, ok := state[e.errObj[site]].(CellC)
 			if !ok {
@@ -759,6 +793,9 @@ func (a *Analysis) ruleW2(upd *ssa.Function) {
 			if site == execRec.Instr && succeeded {
 				rendered = true
 			}
+			if site == writeFileSite && succeeded {
+				written = true
+			}
 			if succeeded {
 				continue
 			}
@@ -768,6 +805,11 @@ func (a *Analysis) ruleW2(upd *ssa.Function) {
 		if !rendered {
 			okErr = false
 			r.Bad("W2", fk+"/errors", a.P.InstrPos(x.Ret), "", "%s can return nil here without the template having been rendered successfully: a list file would be missing or incomplete without an error", fk)
+			continue
+		}
+		if !written {
+			okErr = false
+			r.Bad("W2", fk+"/errors", a.P.InstrPos(x.Ret), "", "%s can return nil here without the rendered file having been written successfully", fk)
 			continue
 		}
 		if bw != nil && bw.O != nil {
